@@ -56,3 +56,11 @@ Theorem C04_order_concurrent_reset_detached :
   RAx.pos (RAx.P c) + RAx.off (RAx.P c) + 1 <= RAx.pos (RAx.C c) + len.
 Proof. exact OrderFacts.order_always_x. Qed.
 Print Assumptions C04_order_concurrent_reset_detached.
+
+(** THREE stages with reset_index / detach / sync_index / attach on the WORKER and the consumer, under concurrency (Conc/RA3x.v) *)
+Require MRB.Conc.RA3xproof.
+Theorem C04_order_concurrent_three_stages_reset_detached :
+  forall (len : nat) (script : list (RA3.tid * RA3x.cmd)), 0 < len -> let c := RA3x.exec3_x len (RA3x.init3_x len) script in RA3x.pos3 (RA3x.C3 c) + RA3x.off3 (RA3x.C3 c) <= RA3x.publishedW3 c /\ RA3x.publishedW3 c <= RA3x.pos3 (RA3x.W3 c) /\ RA3x.pos3 (RA3x.W3 c) + RA3x.off3 (RA3x.W3 c) <= RA3x.pos3 (RA3x.P3 c) /\ RA3x.publishedP3 c = RA3x.pos3 (RA3x.P3 c) /\ RA3x.pos3 (RA3x.P3 c) + RA3x.off3 (RA3x.P3 c) + 1 <= RA3x.publishedC3 c + len /\ RA3x.publishedC3 c <= RA3x.pos3 (RA3x.C3 c).
+Proof. exact RA3xproof.order_always_3x. Qed.
+Print Assumptions C04_order_concurrent_three_stages_reset_detached.
+
